@@ -1338,6 +1338,12 @@ def msg_flags(ctx, rep, rule):
         rep.inconclusive(rule, "SnmpV3Message::push_ber|msgFlags", "no push_u8 of a cell-determined value found: flags octet not recognised", body.loc())
         return
     wrong = {c: v for c, v in table.items() if good is None}
+    determined = [k for k in range(n) if all(isinstance(table[c][k], int) for c in table)]
+    varying = [k for k in determined if len({table[c][k] for c in table}) > 1]
+    if good is None and not varying:
+        rep.inconclusive(rule, "SnmpV3Message::push_ber|msgFlags", "the flags octet is computed in a way the cell execution does not follow "
+                         "(iterator / closure): its table is not decided", body.loc())
+        return
     rep.check(rule, "SnmpV3Message::push_ber|msgFlags", good is not None, "auth | priv << 1 | reportable << 2 for all eight combinations",
               "the msgFlags octet is not auth|priv|reportable for every security level: (auth, priv, report) -> octets pushed %s" %
               sorted(wrong.items()), body.loc(), obligation=True)
@@ -1356,6 +1362,15 @@ def hand_lengths(ctx, rep, rule):
         prov = flow.Prov(body)
         for b in body.calls():
             cp = callee_path(b.term) or ""
+            if cp in ("buf::buffer::Buffer::push", "buf::buffer::Buffer::push_unchecked") and len(b.term["args"]) > 1:
+                t = prov.operand(b.term["args"][1])
+                for arr in [x for x in flow.subterms(t) if x[0] == "agg" and x[1] == "array"]:
+                    for fname, ft in arr[3]:
+                        if flow.mentions(ft, lambda s_: s_[0] == "call" and (s_[1] or "").split("::")[-1] == "len"):
+                            n += 1
+                            rep.violation(rule, "%s|push([.. %s ..])" % (body.path, flow.fmt(ft)[:40]), "a length octet is written by hand inside a pushed array "
+                                          "(%s): only the short form is produced, lengths of 128 and more are mis-encoded; use push_tag_len" % flow.fmt(ft)[:80],
+                                          body.loc(b.term["line"]), obligation=True)
             if cp in ("buf::buffer::Buffer::push_u8", "buf::buffer::Buffer::push_u8_unchecked") and len(b.term["args"]) > 1:
                 n += 1
                 t = prov.operand(b.term["args"][1])
